@@ -86,7 +86,10 @@ def gen_cases(tier, seed):
         for _k in range(rnd.choice([2, 2, 3])):
             scs.append({"grid": [rnd.randint(1, 9) for _ in range(3)],
                         "chunk": chunk if rnd.random() < 0.7 else rnd.choice([1, 2, 4]),
-                        "triple": [rnd.randint(0, 3), rnd.randint(0, 3), rnd.randint(0, 4)]})
+                        # shard bits beyond what a small grid can use: the file names
+                        # keep the zero padding of the CONFIGURED number of bits
+                        "triple": [rnd.randint(0, 3), rnd.randint(0, 3),
+                                   rnd.choice([0, 1, 2, 3, 4, 5, 8, 9, 13, 20])]})
         cases.append({"kind": "dataset", "scales": scs, "pseed": rnd.randrange(2 ** 32)})
     cases.append({"kind": "repo_tests"})
     return cases
